@@ -14,7 +14,8 @@ ID = "C11"
 LEVEL = "fault_enumeration"
 RULE = ("complete enumeration of (request in both protocol modes, exchange index, fault kind in "
         "{write error, read error, timeout}, follow-up request, reconnection outcome in {ok, "
-        "connect fails 1..3 times then ok}) plus Hypothesis histories of 2..5 requests with "
+        "connect fails 1..3 times then ok}) for the Ledger manager, a thinner grid for the "
+        "TCPSigner and SGX managers (their own connect / disconnect classes), plus Hypothesis histories of 2..5 requests with "
         "several faults; non-trivial = fault at index >= 1 of a multi-exchange command, or a "
         "history with >= 2 faults; distinct by cell / history")
 ASSUMPTIONS = [
@@ -176,6 +177,42 @@ def run_case(c):
     check_followups(h, w, p, c["m"], (c["m"], c["follow"]), c["k"], where, kind != "timeout",
                     labels)
     return Out(labels, i >= 1 and len(kinds) > 1)
+
+
+# ---------------------------------------------------------------- the other transports
+
+TRANSPORT_REQS = ["getPubKey", "sign_auth", "sign_unauth", "advance", "state"]
+
+
+def transport_cells(tier, seed):
+    """The TCPSigner and SGX managers share the protocol object but open, close and re-open
+    their connection through classes of their own: a thinner grid over them."""
+    pl = c04.plan()
+    out = []
+    for tr in ("TCP", "SGX"):
+        for key in c04.PLAIN_NAMES:
+            if key[0] != "v5" or key[1] not in TRANSPORT_REQS:
+                continue
+            n = len(pl[key])
+            for i in sorted(set([0, 1, n // 2, n - 1]) & set(range(n))):
+                for kind in KINDS:
+                    for k in (0, 2):
+                        out.append({"m": key[0], "r": key[1], "i": i, "kind": kind,
+                                    "follow": "getPubKey", "k": k, "transport": tr})
+    return out
+
+
+def run_transport_case(c):
+    from comm.platform import Platform
+    saved = mw.TRANSPORT[0]
+    mw.TRANSPORT[0] = c["transport"]
+    Platform.set(Platform.X86 if c["transport"] == "TCP" else Platform.SGX)
+    try:
+        out = run_case(c)
+        return Out(list(out.labels) + ["transport:" + c["transport"]], out.nontrivial)
+    finally:
+        mw.TRANSPORT[0] = saved
+        Platform.set(Platform.LEDGER)
 
 
 # ---------------------------------------------------------------- faults during the repair itself
@@ -431,7 +468,8 @@ def run_history(c):
 
 
 REQUIRED_LABELS = {t: ["kind:write", "kind:read", "kind:timeout", "repaired",
-                       "retry-after-connect-failure", "exempt-exit-step", "history",
+                       "retry-after-connect-failure", "exempt-exit-step", "history", "transport:TCP",
+                       "transport:SGX",
                        "repair-retried-after-failed-repair", "repair-fault:timeout",
                        "repaired-through-bootloader", "power-cycle:SGX", "after-device-refusal",
                        "unfit:refused-then-served",
@@ -442,6 +480,9 @@ REQUIRED_LABELS = {t: ["kind:write", "kind:read", "kind:timeout", "repaired",
 def stages(tier):
     return [EnumStage("cells", cells, run_case, exhaustive={"quick": True, "thorough": True},
                       budget_s={"quick": 120, "thorough": 600}),
+            EnumStage("other-transports", transport_cells, run_transport_case,
+                      exhaustive={"quick": True, "thorough": True},
+                      budget_s={"quick": 60, "thorough": 120}),
             EnumStage("repair-faults", repair_fault_cells, run_repair_fault,
                       exhaustive={"quick": True, "thorough": True},
                       budget_s={"quick": 60, "thorough": 300}),
